@@ -60,6 +60,7 @@ type Replay struct {
 	FindingKey string     `json:"finding_key"`
 	Minimised  bool       `json:"minimised"`
 	Sig        string     `json:"schedule_signature,omitempty"`
+	Native     bool       `json:"native_fallback,omitempty"` // observed under real goroutine scheduling: replay is statistical
 	Trace      []string   `json:"trace,omitempty"`
 	Note       string     `json:"note,omitempty"`
 }
@@ -404,7 +405,7 @@ func runWorker(master uint64, worker, workers, scheds, maxProgs int, budget floa
 					fcfg := cfg
 					fcfg.Policy = simrt.Policy{Mode: "forced", Forced: r.Switches}
 					rp := &Replay{Property: "C10", MasterSeed: master, RunIndex: idx, SchedIndex: s, Workload: w, Run: fcfg, Violation: v, FindingKey: key,
-						Sig: fmt.Sprintf("%016x", r.Sig), Note: "found under policy " + policyName(pol)}
+						Sig: fmt.Sprintf("%016x", r.Sig), Note: "found under policy " + policyName(pol), Native: nativeFallback()}
 					res.Violations = append(res.Violations, rp)
 				}
 			}
